@@ -147,8 +147,10 @@ Print Assumptions program_of_statements_partial.
    the initialiser (the body is stored as a block), throw (no line break after the keyword), break / continue with an
    optional label on the same line, var declarations with identifier bindings and AssignmentExpression initialisers,
    debugger, with ( Expression ) Statement, try Block with catch [ ( identifier ) ] Block and / or finally Block,
-   switch ( Expression ) { case Expression : StatementList ... default : StatementList ... } with at most one default.
-   Terminators: an ExpressionStatement, throw, break / continue, var or debugger statement ends at ';' on any line, or — automatic
+   switch ( Expression ) { case Expression : StatementList ... default : StatementList ... } with at most one default,
+   let / const declarations with identifier bindings (const: every binding initialised; only in statement lists, not as the
+   body of if / while / do / for / with).
+   Terminators: an ExpressionStatement, throw, break / continue, var / let / const or debugger statement ends at ';' on any line, or — automatic
    semicolon insertion — at a line break before a token that cannot continue it, at the '}' of its block or at the end of
    the input; do-while takes its ';' on any line or none.  Every such program is parsed, with Options.WhileToFor off, to
    exactly the statement list the grammar prescribes.
@@ -156,9 +158,9 @@ Print Assumptions program_of_statements_partial.
    by a ';' on the same line (`{};`, `if(a)b;;`, `;;`): the code drops that EmptyStatement (KNOWN_FINDINGS
    c03-tree:empty-statement-same-line), so [xone] leaves the shape out — the only gap inside the listed forms.
    OUTSIDE the fragment (searched by the generator oracle, not proved): for-in / for-of / for await, return and
-   function / class declarations and expressions, let / const declarations, import / export, binding patterns
+   function / class declarations and expressions, import / export, binding patterns
    (destructuring, also as catch parameter), yield / await as names.
-   Instance: Stmts2.v x_example_derivable (a ten-statement program mixing the forms, its derivation) and x_example (its tree). *)
+   Instance: Stmts2.v x_example_derivable (a twelve-statement program mixing the forms, its derivation) and x_example (its tree). *)
 Theorem program_of_statement_fragment_partial :
   forall ts l, xprog ts l -> parse_xprogram false ts = Ok l.
 Proof. exact program_of_statement_fragment_proof. Qed.
